@@ -1,5 +1,5 @@
 """Property -> rules mapping."""
-from .rules import cfg, det, hdr, hyg, rawid
+from .rules import cfg, det, fmtparse, hdr, hyg, rawid
 
 PROPS = {}
 
@@ -69,3 +69,20 @@ prop(
 
 
 prop("C06", [rawid.rule_raw_id], meta={"explanation": "wip"})
+
+
+prop(
+    "C03",
+    [fmtparse.rule_peg_combinators, fmtparse.rule_peg_tables, fmtparse.rule_fmt_counter, fmtparse.rule_peg_equiv],
+    level="model_checking",
+    meta={
+        "explanation": "A PEG is extracted from the combinator source of impl/src/fmt/parsing.rs on every run (fail-closed on any construct it does not understand) and compared, "
+        "by table rules and by bounded exhaustive equivalence, with std::fmt's documented grammar (read from the toolchain's alloc/src/fmt.rs) as rustc_parse_format disambiguates it. "
+        "The model is derived from source; no code of the crate runs.",
+        "assumptions": [
+            "extraction fidelity: the combinators keep the std Option/Iterator semantics checked by G-COMB",
+            "reference reading of std's grammar (fill/align by one-character look-ahead, `0$`, `.*`) follows rustc_parse_format; validated against rustc by format_args! witnesses",
+            "a literal std rejects still reaches format_args! unchanged (TPL-VERB, C02) unless the transparent path is taken (C05)",
+        ],
+    },
+)
